@@ -8,7 +8,7 @@ WT=/var/tmp/wt/try_${S}_${C}_$$
 OUT=/var/tmp/wt/out_${S}_${C}_$$
 mkdir -p /var/tmp/wt $OUT
 git -C /repo worktree add --detach -q $WT HEAD || exit 3
-( cd $WT && git apply /verif/seeded/$S/patch.diff ) || { echo "patch failed"; git -C /repo worktree remove --force $WT; exit 3; }
+( cd $WT && { git apply /verif/seeded/$S/patch.diff 2>/dev/null || { git apply --3way /verif/seeded/$S/patch.diff >/dev/null 2>&1 && git reset -q; }; } ) || { echo "patch failed seed=$S"; git -C /repo worktree remove --force $WT; exit 3; }
 VERIF_REPO=$WT VERIF_OUT_DIR=$OUT /verif/check $C --tier $T "$@" > $OUT/log 2>&1; RC=$?
 case $RC in 0) V=MISSED;; 1) V=CAUGHT;; *) V=INCONCLUSIVE;; esac
 echo "$V seed=$S check=$C tier=$T rc=$RC :: $(grep -E '^(VIOLATION|HELD|INCONCLUSIVE|KNOWN)' $OUT/log | head -3 | cut -c1-300 | tr '\n' ' ')"
